@@ -30,12 +30,16 @@ def gen_histories(chk, mdl, n):
             uris.valid_texts(mdl, uris.small_texts(3, alphabet=[".", "..", ":b", ":", "x"], auths=(None,), schemes=(None, "s"), queries=(None,)))
     deg = uris.valid_texts(mdl, uris.degenerate_texts() + uris.long_ip6_texts())
     texts += deg
+    # a ':' behind every kind of character, in the segment that a kept "." / a "./" guard has to protect
+    colon = [pre + sg + post for sg in uris.COLON_SEGS for pre in ("./", "x/../", "%2E/", "s://h/a/", "s:/", "", "../") for post in ("", "/t", "/..", "?q")]
+    texts += uris.valid_texts(mdl, colon)
     abs_texts = [t for t in texts if t[:2].lower() == "s:"]
     out = []
     # fixed part: every small reference with dot segments goes through normalize -> resolve -> normalize -> create reference -> make owner
     tricky = [t for t in texts if ("." in t.split("?")[0].split("/") or ".." in t.split("?")[0].split("/")) and len(t) <= 12]
+    tricky = [t for t in colon if t in set(texts) and t[:2] in ("./", "x/", "%2")] + tricky
     bases = ["s:/x/y", "s://h/x/y", "s:///x", "s:x/y"]
-    for k, t in enumerate(tricky[: max(200, n // 10)]):
+    for k, t in enumerate(tricky[: max(200, n // 10) + 200]):
         b = bases[k % len(bases)]
         out.append(uris.hist([('p', 0, t), ('p', 1, b), ('n', 0, 8 if k % 2 else 63), ('a', 2, 0, 1, k % 2), ('n', 2, 63), ('r', 3, 2, 1, (k // 2) % 2), ('o', 3), ('r', 4, 1, 2, 0)]))
     # every IPv4 octet value in every position (the text written for an address comes from the octets, not from the host text):
